@@ -416,7 +416,9 @@ Example discover_nested_unrelated_example :
     discovered_n 9 10 (resolve ex_env) (own_sig 9 10) plain0 true (nd_l1 ++ NLeaf (SPass 12 SA) :: nd_l2) = Some r.
 Proof.
   split; [discriminate|]. repeat (split; [reflexivity|]).
-  eexists. split; [|repeat split; vm_compute; reflexivity]. reflexivity.
+  eexists. split; [|split; [|split; [|split]]];
+    [|vm_compute; reflexivity|vm_compute; reflexivity|vm_compute; reflexivity|vm_compute; reflexivity].
+  reflexivity.
 Qed.
 
 Print Assumptions nested_main_walk.
